@@ -169,8 +169,9 @@ def rule_dump(ctx, cb=CB):
         for c in wr:
             ctx.check('dump', 'write-checked', util.result_is_consumed(oc, c), c, 'write_all result is `?`-checked')
         # the row loop iterates the whole map
-        it = [c for c in oc.calls if mir.method_name(c.name) == 'iter' and canon(oc.op_expr(c.args[0])) == 'self.unspents']
-        ctx.check('dump', 'iterates-whole-map', len(it) == 1, oc, 'for (key, value) in self.unspents.iter()')
+        doms = [canon(x) for x in util.loop_bounds(oc, rw[0].bb) if x is not None] if rw else []
+        bad = [c for c in oc.calls if mir.method_name(c.name) in ('skip', 'take', 'filter', 'step_by', 'take_while', 'skip_while') and oc.loop_depth(c.bb) == 0]
+        ctx.check('dump', 'iterates-whole-map', doms == ['self.unspents'] and not bad, oc, 'the row loop runs over %s' % doms)
 
 
 def rule_owner(ctx):
